@@ -1,6 +1,7 @@
 import Larking.Gen.Codes
 import Larking.Gen.Missing
 import Larking.Lemmas.Status
+import Larking.Lemmas.WsClose
 /-
   C05 — Status and error fidelity.  Only property statements live here; helper
   lemmas are in Larking/Lemmas.  `Gen.*` is regenerated from /repo on every run,
@@ -102,6 +103,41 @@ theorem details_roundtrip (b : Bytes) :
     Base64.decode false false (Base64.encode false false b) = some b :=
   Base64.decode_encode false false b
 
+/-! ### the WebSocket close frame -/
+
+/-- the close frame always fits a control frame (125 bytes: 2 for the code, at most 123 of
+reason), for every status message. -/
+theorem ws_close_frame_fits (code : Nat) (msg : Bytes) :
+    (WsClose.body code (WsClose.reason Gen.wsReasonMax Gen.wsReasonRuneSafe msg)).length ≤ 125 ∨
+      (msg.length ≤ 123 ∧ (WsClose.body code (WsClose.reason Gen.wsReasonMax Gen.wsReasonRuneSafe msg)).length = msg.length + 2) := by
+  rcases WsClose.reason_length Gen.wsReasonMax Gen.wsReasonRuneSafe msg with h | h
+  · left; simp only [WsClose.body, List.length_append, List.length_cons, List.length_nil]
+    have : Gen.wsReasonMax = 123 := rfl
+    omega
+  · right
+    have hm : Gen.wsReasonMax = 123 := rfl
+    refine ⟨by omega, ?_⟩
+    have : ¬ msg.length > Gen.wsReasonMax := by omega
+    simp [WsClose.body, WsClose.reason, this]
+
+/-- the reason is a prefix of the status message ("as far as a close frame can carry it"), and
+the whole message when it fits. -/
+theorem ws_close_reason_is_prefix (msg : Bytes) :
+    (∃ k, WsClose.reason Gen.wsReasonMax Gen.wsReasonRuneSafe msg = msg.take k) ∧
+    (msg.length ≤ 123 → WsClose.reason Gen.wsReasonMax Gen.wsReasonRuneSafe msg = msg) := by
+  refine ⟨WsClose.reason_prefix _ _ msg, ?_⟩
+  intro h
+  have : ¬ msg.length > Gen.wsReasonMax := by show ¬ msg.length > 123; omega
+  simp [WsClose.reason, this]
+
+/-- contrast (the code before fix ed7f237: the cut falls wherever byte 123 is): a message of
+two-byte runes is cut inside a rune — the reason ends with a lead byte; moved to the rune
+boundary it ends with a whole rune. -/
+theorem cut_inside_a_rune_without_the_fix :
+    (WsClose.reason 3 false [0xc3, 0xa9, 0xc3, 0xa9]).getLast? = some 0xc3 ∧
+    WsClose.reason 3 true [0xc3, 0xa9, 0xc3, 0xa9] = [0xc3, 0xa9] ∧
+    WsClose.reason 4 true [0xe6, 0x97, 0xa5, 0xe6, 0x97, 0xa5] = [0xe6, 0x97, 0xa5] := by decide
+
 -- non-vacuity: concrete instances
 example : httpStatus 5 = .ok 404 := by decide
 example : httpStatus 17 = .ok 500 := by decide
@@ -121,3 +157,6 @@ end Larking.Props.C05
 #print axioms Larking.Props.C05.twirp_always_answered
 #print axioms Larking.Props.C05.web_text_complete
 #print axioms Larking.Props.C05.details_roundtrip
+#print axioms Larking.Props.C05.ws_close_frame_fits
+#print axioms Larking.Props.C05.ws_close_reason_is_prefix
+#print axioms Larking.Props.C05.cut_inside_a_rune_without_the_fix
